@@ -187,7 +187,7 @@ pub fn check_stream(ls: &LangSet, code: &str, toks: &[IdTok], model: bool) -> St
 
 pub fn run(ctx: &Ctx) -> Outcome {
     let n_streams = ctx.n(300_000, 6_000_000);
-    let rep = run_sharded(ctx, |w, nw, rep| {
+    let mut rep = run_sharded(ctx, |w, nw, rep| {
         let ls = LangSet::new();
         let mut rng = Rng::derive(ctx.seed, "C09", w as u64);
         for i in 0..(n_streams / nw as u64) {
@@ -228,6 +228,9 @@ pub fn run(ctx: &Ctx) -> Outcome {
             }
         }
     });
+    if !ctx.quick() {
+        super::legs::fuzz_leg(ctx, &mut rep, 45);
+    }
     let rule = "cases = grammar-noise token streams, each scanned at 9 base thresholds (0,1,3,5,10,25,inf,NaN,-1) plus value and value +/- 0.5 of its first numbers; universal laws on every stream: F(t) subset of F(0) as exact tuples, monotonicity over all ordered threshold pairs, t<=0 or NaN rewrites everything, every non-small number is reported; policy model (lower-case, hint-free streams): a small number is reported iff a neighbour of the same kind is linked through a soft gap; gaps are soft (whitespace, hyphen, letter-free tokens other than a lone period, linking words, the conjunction) / hard (a lone period, a word that is not linking) / ambiguous (the separator word, a conjunction flagged not-a-number that the language does not list as linking: not judged); non-trivial = stream with at least one recognised number";
     finish(ctx, rep, rule, &["'is this a linking word / a separator word' is asked of the running library through the public trait methods", "gaps that contain the decimal-separator word are not judged (DESIGN.md C09); letter-free tokens other than a lone period are transparent, as the property's anchor states"], vec![])
 }
